@@ -27,11 +27,18 @@
 (*   sc.refs     [file -> Seq(name)]    single references, one per line      *)
 (*   sc.lrefs    [file -> Seq(name)]    one list reference `refs x, y, z`    *)
 (*   sc.pad/ind  [file -> Nat] empty lines before / indentation of items    *)
+(*   sc.deco     [file -> Nat] length of a comment (with the blank after it)  *)
+(*               in front of every item of the file (0 = none)               *)
 (*   sc.repo     [A, B -> "-" | "r1" | "r2"] global repository of a language *)
 (*               ("-" none; the same name = one shared repository object)    *)
 (*   sc.builtin  Seq(name): elements of the builtin model (<<>> = none)     *)
 (*   sc.declared [A, B -> Seq(param)]   sc.fault   [kind, file, at]          *)
-(*   sc.session  Seq([op |-> "load", file, how, given, vals] | [op |-> "repair"]) *)
+(*   sc.session  Seq([op |-> "load", file, how, given, vals] | [op |-> "repair"] *)
+(*                   | [op |-> "declare", file |-> language, given |-> names]) *)
+(*               how: "file" model_from_file, "str" model_from_str,          *)
+(*               "strfile" model_from_str(file_name=..), "app" the file is    *)
+(*               loaded into a repository owned by the application            *)
+(*               (GlobalRepo.load_models_in_model_repo)                       *)
 (*   sc.id       number of the scenario in its batch (given by the harness)  *)
 (* Where the file system decides (order of globbed files) or the documents  *)
 (* do not decide (which of several offending references is reported, which  *)
@@ -55,9 +62,11 @@ VARIABLES
   stack,       \* load frames, innermost last
   models,      \* model id -> [src, params, defs, uses, lrefs, tg, nofile]
   repos,       \* repository -> (key -> model id).  "r1", "r2": global repositories of
-               \*   the metamodels (they outlive a load); "tmp": the repository created by a
-               \*   load whose metamodel has none.  The repository of the main model's
-               \*   language is shared by all models of the load (repoAll below).
+               \*   the metamodels, "app": a repository owned by the application (they
+               \*   outlive a load); "tmp": the repository created by a load whose
+               \*   metamodel has none.  One repository is shared by all models of a load
+               \*   (repoAll below): "app" when the application loads into its own
+               \*   repository, otherwise the one of the main model's language.
   repoLocal,   \* model id -> set of keys visible from that model
   opens,       \* file -> number of opens in the current top-level load
   created,     \* model ids created by the current top-level load
@@ -73,7 +82,7 @@ Files      == Range(sc.files)
 NoneFile   == "<none>"
 NoModel    == [f |-> "-", a |-> 0]
 Builtin    == [f |-> "<builtin>", a |-> 0]
-Rids       == {"r1", "r2"}
+Rids       == {"r1", "r2", "app"}
 NoCul      == <<"-", 0, "-">>
 Pending    == [ok |-> FALSE, kind |-> "pending", file |-> NoneFile, line |-> 0, col |-> 0,
                model |-> NoModel, cul |-> NoCul]
@@ -98,7 +107,7 @@ Attempt == step + 1
 
 \* the global repository of the language of file f ("-" = none)
 Rid(f)     == sc.repo[sc.lang[f]]
-RidOf(op)  == IF Rid(op.file) = "-" THEN "tmp" ELSE Rid(op.file)
+RidOf(op)  == IF op.how = "app" THEN "app" ELSE IF Rid(op.file) = "-" THEN "tmp" ELSE Rid(op.file)
 CurRid     == RidOf(Op)                  \* repository shared by the models of the current load
 repoAll    == repos[CurRid]
 SetAll(ra) == [repos EXCEPT ![CurRid] = ra]
@@ -141,21 +150,25 @@ Stmts(f) == IF IsGlobKind THEN <<"*">> ELSE sc.imports[f]
 \*   (in this order), then one line `refs x, y, z` for the list reference, each indented
 \*   by ind; a syntax fault is a last line "@@".
 \*   import "x.ma" = 13 characters, "def " / "use " = 4, "refs " = 5, ", " = 2.
+\*   With deco > 0 every item is preceded, after the indentation, by a comment and a blank
+\*   of together deco characters, none of them a line feed (which characters is up to the
+\*   renderer: a position counts characters, and lines are separated by line feeds only).
+Pre(f) == sc.ind[f] + sc.deco[f]          \* characters in front of an item on its line
 RECURSIVE SumLen(_, _)
 SumLen(names, k) == IF k = 0 THEN 0 ELSE SumLen(names, k - 1) + Len(names[k])
 LineLens(f, defs, uses, lrefs, broken) ==
      [i \in 1..sc.pad[f] |-> 0]
-  \o [i \in 1..Len(sc.imports[f]) |-> sc.ind[f] + 13]
-  \o [i \in 1..Len(defs) |-> sc.ind[f] + 4 + Len(defs[i])]
-  \o [i \in 1..Len(uses) |-> sc.ind[f] + 4 + Len(uses[i])]
-  \o (IF lrefs # <<>> THEN <<sc.ind[f] + 5 + SumLen(lrefs, Len(lrefs)) + 2 * (Len(lrefs) - 1)>> ELSE <<>>)
-  \o (IF broken THEN <<sc.ind[f] + 2>> ELSE <<>>)
+  \o [i \in 1..Len(sc.imports[f]) |-> Pre(f) + 13]
+  \o [i \in 1..Len(defs) |-> Pre(f) + 4 + Len(defs[i])]
+  \o [i \in 1..Len(uses) |-> Pre(f) + 4 + Len(uses[i])]
+  \o (IF lrefs # <<>> THEN <<Pre(f) + 5 + SumLen(lrefs, Len(lrefs)) + 2 * (Len(lrefs) - 1)>> ELSE <<>>)
+  \o (IF broken THEN <<Pre(f) + 2>> ELSE <<>>)
 \* position of reference i (single references first, then the elements of the list)
 RefLineIn(f, defs, uses, i) == sc.pad[f] + Len(sc.imports[f]) + Len(defs)
                                  + (IF i <= Len(uses) THEN i ELSE Len(uses) + 1)
-RefColIn(f, uses, lrefs, i) == IF i <= Len(uses) THEN sc.ind[f] + 5
+RefColIn(f, uses, lrefs, i) == IF i <= Len(uses) THEN Pre(f) + 5
                                ELSE LET j == i - Len(uses) IN
-                                    sc.ind[f] + 6 + SumLen(lrefs, j - 1) + 2 * (j - 1)
+                                    Pre(f) + 6 + SumLen(lrefs, j - 1) + 2 * (j - 1)
 
 RECURSIVE SumTo(_, _)
 SumTo(lens, k) == IF k = 0 THEN 0 ELSE SumTo(lens, k - 1) + lens[k] + 1   \* characters incl. newlines of lines 1..k
@@ -201,7 +214,8 @@ IsNotUnique(m, i) == ~IsPostponed(m, i) /\ IsPlainKind /\ Dups(m, i) # {}
 \* What the harness can observe when a top-level load has finished
 SummaryTg(incl, ms) ==
   UNION {{[m |-> x, i |-> i, to |-> ms[x].tg[i]] : i \in 1..Len(ms[x].tg)} : x \in incl}
-UsedRids == {sc.repo[l] : l \in {"A", "B"}} \ {"-"}
+UsedRids == ({sc.repo[l] : l \in {"A", "B"}} \ {"-"})
+              \cup (IF \E i \in 1..Len(sc.session) : sc.session[i].how = "app" THEN {"app"} ELSE {})
 
 Summary(oc, rs, cur, rl, ms, ops) ==
   LET incl == IF oc.ok THEN {rs[cur][g] : g \in DOMAIN rs[cur]} \cup {oc.model} ELSE {} IN
@@ -247,6 +261,12 @@ Repair ==
   /\ fault' = FALSE /\ step' = step + 1
   /\ UNCHANGED <<sc, dev, stack, models, repos, repoLocal, opens, created, before, outcome, hist>>
 
+\* the language designer declares further parameters
+Declare ==
+  /\ Idle /\ step < Len(sc.session) /\ Op.op = "declare"
+  /\ step' = step + 1
+  /\ UNCHANGED <<sc, dev, fault, stack, models, repos, repoLocal, opens, created, before, outcome, hist>>
+
 \* model_from_file / model_from_str of the metamodel of the file's language is called
 StartLoad ==
   /\ Idle /\ step < Len(sc.session) /\ Op.op = "load"
@@ -258,8 +278,14 @@ StartLoad ==
   /\ outcome' = Pending
   /\ UNCHANGED <<sc, dev, step, fault, models, repoLocal, hist>>
 
-\* only the metamodel that is called validates the parameters
-ParamsOk(op) == Range(op.given) \subseteq Range(sc.declared[sc.lang[op.file]]) \cup {"project_root"}
+\* the parameter names a metamodel declares: those it was built with and those declared
+\* since (model_param_defs.add between two loads)
+DeclaredNow(lg) == Range(sc.declared[lg]) \cup {"project_root"} \cup
+                   UNION {Range(sc.session[i].given) :
+                            i \in {j \in 1..step : sc.session[j].op = "declare" /\ sc.session[j].file = lg}}
+\* only the metamodel that is called validates the parameters; a load into an
+\* application-owned repository is not validated at all
+ParamsOk(op) == op.how = "app" \/ Range(op.given) \subseteq DeclaredNow(sc.lang[op.file])
 
 \* C27: undeclared parameter -> TextXError before anything else happens
 CheckParams ==
@@ -270,13 +296,27 @@ CheckParams ==
           /\ UNCHANGED <<step, outcome, hist>>
      ELSE Finish(ErrRes("params", NoneFile, 0, 0, NoCul))
 
-\* C17: with a global repository a file that is already cached is not loaded again
+\* C17: with a global repository a file that is already cached is not loaded again.
+\* A load into an application-owned repository: known there -> returned as it is; cached
+\* in the global repository of the file's language -> that model enters the application's
+\* repository (its model processors run); otherwise it is loaded.
 CacheStep ==
   /\ ~Idle /\ Top.pc = "cache"
-  /\ IF CurRid # "tmp" /\ Op.how # "str" /\ Top.file \in DOMAIN repoAll
-     THEN stack' = WithTop([Top EXCEPT !.pc = "main_mp", !.m = repoAll[Top.file]])
-     ELSE stack' = WithTop([Top EXCEPT !.pc = "open"])
-  /\ UNCHANGED <<sc, dev, step, fault, models, repos, repoLocal, opens, created, before, outcome, hist>>
+  /\ UNCHANGED <<sc, dev, fault, models, repoLocal, opens, created, before>>
+  /\ LET f == Top.file  r == Rid(f) IN
+     IF Op.how = "app"
+     THEN IF f \in DOMAIN repoAll
+          THEN UNCHANGED repos /\ Finish(OkRes(repoAll[f]))
+          ELSE IF r # "-" /\ f \in DOMAIN repos[r]
+          THEN /\ repos' = SetAll((f :> repos[r][f]) @@ repoAll)
+               /\ stack' = WithTop([Top EXCEPT !.pc = "main_mp", !.m = repos[r][f]])
+               /\ UNCHANGED <<step, outcome, hist>>
+          ELSE /\ stack' = WithTop([Top EXCEPT !.pc = "open"])
+               /\ UNCHANGED <<repos, step, outcome, hist>>
+     ELSE /\ IF CurRid # "tmp" /\ Op.how # "str" /\ f \in DOMAIN repoAll
+             THEN stack' = WithTop([Top EXCEPT !.pc = "main_mp", !.m = repoAll[f]])
+             ELSE stack' = WithTop([Top EXCEPT !.pc = "open"])
+          /\ UNCHANGED <<repos, step, outcome, hist>>
 
 \* C17: a file requested by an importing model of another language is taken from the
 \* global repository of its own language when it is cached there
@@ -291,7 +331,7 @@ NestedCache ==
              /\ UNCHANGED repos
   /\ UNCHANGED <<sc, dev, step, fault, models, repoLocal, opens, created, before, outcome, hist>>
 
-ReadsFile == ~(Top.main /\ Op.how # "file")       \* a string was given for the main model
+ReadsFile == ~(Top.main /\ Op.how \in {"str", "strfile"})       \* a string was given for the main model
 
 OpenFile(f) ==
   /\ ~Idle /\ Top.pc = "open" /\ Top.file = f /\ ReadsFile
@@ -310,7 +350,7 @@ Parse ==
   /\ LET f == Top.file
          nofile == Top.main /\ Op.how = "str"
      IN IF FaultIn(f, "syntax")
-        THEN /\ Fail(ErrRes("syntax", IF nofile THEN NoneFile ELSE f, GarbageLine(f), sc.ind[f] + 1,
+        THEN /\ Fail(ErrRes("syntax", IF nofile THEN NoneFile ELSE f, GarbageLine(f), Pre(f) + 1,
                             <<f, 0, IF nofile THEN NoneFile ELSE f>>), FALSE)
              /\ UNCHANGED <<models, created, repoLocal>>
         ELSE LET m == [f |-> IF nofile THEN "~" ELSE f, a |-> Attempt] IN
@@ -469,13 +509,16 @@ ObjProcsDone ==
 \* model processors of the main model (also on a cached model), then return.
 \* C18 demands the cleanup for this failure too.  Clauses: NoCleanupOnModelProcessorFailure
 \* is what metamodel.internal_model_from_file did; NoCleanupOnStringModelProcessorFailure is
-\* what metamodel.model_from_str does for a model without file name.
+\* what metamodel.model_from_str did for a model without file name; NoCleanupOfApplicationRepository
+\* is what happens when the application loads into a repository of its own
+\* (GlobalRepo.load_models_in_model_repo): the metamodel only tidies its own repository.
 MainMP ==
   /\ ~Idle /\ Top.pc = "main_mp"
   /\ UNCHANGED <<sc, fault, models, repos, repoLocal, opens, created, before>>
   /\ IF MPFails(Top.m)
      THEN LET cs == ({"NoCleanupOnModelProcessorFailure"} \cup
-                     (IF Op.how = "str" THEN {"NoCleanupOnStringModelProcessorFailure"} ELSE {})) \cap Listed
+                     (IF Op.how = "str" THEN {"NoCleanupOnStringModelProcessorFailure"} ELSE {}) \cup
+                     (IF Op.how = "app" THEN {"NoCleanupOfApplicationRepository"} ELSE {})) \cap Listed
               matters == \E r \in Rids : Purge(repos[r], created) # repos[r] IN
           /\ \E nc \in (IF cs # {} /\ matters THEN (IF Force THEN {TRUE} ELSE {FALSE, TRUE})
                          ELSE {FALSE}) :
@@ -500,7 +543,7 @@ Stutter == Idle /\ step = Len(sc.session) /\ UNCHANGED vars
 
 Next ==
   \/ Stutter
-  \/ Repair \/ StartLoad \/ CheckParams \/ CacheStep \/ NestedCache
+  \/ Repair \/ Declare \/ StartLoad \/ CheckParams \/ CacheStep \/ NestedCache
   \/ \E f \in Files : OpenFile(f)
   \/ SkipOpen \/ Parse \/ Register \/ ImportNext \/ ImportGlobHits \/ ImportGlobPick \/ ImportsDone
   \/ NestedMP \/ Resolve
@@ -525,7 +568,7 @@ C17_OpenOnce == \A f \in Files : opens[f] <= 1
 C17_OpensCreated ==
   JustLoaded /\ outcome.ok =>
     \A f \in Files : opens[f] = IF \E m \in created : models[m].src = f
-                                                       /\ ~(m = outcome.model /\ LastOp.how # "file")
+                                                       /\ ~(m = outcome.model /\ LastOp.how \in {"str", "strfile"})
                                 THEN 1 ELSE 0
 \* C17: a file cached in the global repository of its language is never read again,
 \* whoever asks for it
@@ -576,7 +619,7 @@ C28_Location ==
     LET f  == outcome.cul[1]
         i  == outcome.cul[2]
         ln == IF i = 0 THEN GarbageLine(f) ELSE RefLineIn(f, DefsOf(f), UsesOf(f), i)
-        c  == IF i = 0 THEN sc.ind[f] + 1 ELSE RefColIn(f, UsesOf(f), LrefsOf(f), i)
+        c  == IF i = 0 THEN Pre(f) + 1 ELSE RefColIn(f, UsesOf(f), LrefsOf(f), i)
     IN \* the file that holds the text; none only for the string handed to model_from_str
        /\ outcome.file = outcome.cul[3]
        /\ outcome.file \in {f} \cup (IF LastOp.how = "str" /\ f = LastOp.file THEN {NoneFile} ELSE {})
